@@ -7,7 +7,7 @@ def base():
             "guard": "RIME_VERIF",
             "enable": "tools/build_librime.sh <san|tsan|plain> configures an out-of-tree cmake build of /repo's working tree into /verif/.build/<flavour> with -DRIME_VERIF in CMAKE_CXX_FLAGS (plus sanitizer flags); harnesses are compiled with the same define",
             "baseline_off_cmd": "./tools/baseline_off.sh",
-            "source_commits": ["4bdff0e", "8b162b4"],
+            "source_commits": ["4bdff0e", "8b162b4", "6c40e85"],
             "add_only": True,
         },
         "engines": [
